@@ -431,10 +431,22 @@ impl FakeJunos {
                         if let Some(o) = &self.running_override {
                             return (o.clone(), true);
                         }
+                        // the router honours the request's subtree filter
+                        let filter = crate::running::StmtFilter::from_request(op.child("filter"));
                         if self.running_raw {
-                            (running_reply_raw(id, &self.running).into_bytes(), true)
+                            (
+                                crate::running::running_reply_raw_filtered(id, &self.running, &filter)
+                                    .into_bytes(),
+                                true,
+                            )
                         } else {
-                            (self.data_reply(id, running_x(&self.running)), true)
+                            (
+                                self.data_reply(
+                                    id,
+                                    crate::running::running_x_filtered(&self.running, &filter),
+                                ),
+                                true,
+                            )
                         }
                     }
                     "candidate" => {
